@@ -74,6 +74,7 @@ St_Next == \/ (c = 0 /\ Len(a) < DLEN /\ \E v \in (-DHI)..DHI : a' = Append(a, v
 Shift(d, k) == [i \in 1..Len(d) |-> d[i] + k]
 Scale(d, k) == [i \in 1..Len(d) |-> d[i] * k]
 Rev(d)      == [i \in 1..Len(d) |-> d[Len(d) + 1 - i]]
+StW(d) == [i \in 1..Len(d) |-> 1 + (i % 3)]
 St_Laws == a = <<>> \/
            /\ Mean(Shift(a, 3)) = RAdd(Mean(a), R(3))
            /\ Mean(Scale(a, -2)) = RMul(Mean(a), R(-2))
@@ -83,10 +84,19 @@ St_Laws == a = <<>> \/
                              /\ Variance(Scale(a, -2)) = RMul(Variance(a), R(4))
                              /\ RSgn(Variance(a)) >= 0)
            /\ WMean(a, [i \in 1..Len(a) |-> 3]) = Mean(a)
+           /\ (Len(a) \in 2..5 => LET w == StW(a) IN
+                 /\ WMean(Shift(a, 3), w) = RAdd(WMean(a, w), R(3)) /\ WMean(Scale(a, -2), w) = RMul(WMean(a, w), R(-2))
+                 /\ WSE2(Shift(a, 3), w) = WSE2(a, w)                                   \* translation
+                 /\ WSE2(Scale(a, -2), w) = RMul(WSE2(a, w), R(4))                      \* scaling
+                 /\ WSE2(Rev(a), Rev(w)) = WSE2(a, w)                                   \* permutation
+                 /\ WSE2(a, Scale(w, 2)) = WSE2(a, w)                                   \* weights matter only up to a common factor
+                 /\ WSE2(a, [i \in 1..Len(a) |-> 3]) = SE2Equal(a)                     \* reduction to s^2/N
+                 /\ WSE2Cochran(a, w) = WSE2(a, w))                                     \* the formula of the code is that quantity
 St_Export == a = <<>> \/
              Out([k |-> "Stats", data |-> a, mean |-> Mean(a), median |-> Median(a),
                   var |-> IF Len(a) > 1 THEN Variance(a) ELSE <<0, 1>>,
                   w |-> [i \in 1..Len(a) |-> 1 + (i % 3)],
                   wmean |-> WMean(a, [i \in 1..Len(a) |-> 1 + (i % 3)]),
-                  se2eq |-> IF Len(a) > 1 THEN SE2Equal(a) ELSE <<0, 1>>])
+                  se2eq |-> IF Len(a) > 1 THEN SE2Equal(a) ELSE <<0, 1>>,
+                  wse2 |-> IF Len(a) \in 2..5 THEN WSE2(a, StW(a)) ELSE <<-1, 1>>])
 =============================================================================
